@@ -609,7 +609,105 @@ func scenBoundary(r *rec, blocks int) {
 	}
 }
 
+// ------------------------------------------------------------------------------------ model -> implementation replay
+
+type behStep struct {
+	A   string  `json:"a"`
+	V   string  `json:"v"`
+	B   [][]any `json:"b"`
+	P   [][]any `json:"p"`
+	H   [][]any `json:"h"`
+	Com bool    `json:"com"`
+}
+type behaviour struct {
+	Seed  [][]any            `json:"seed"`
+	Steps []behStep          `json:"steps"`
+	Fin   map[string][][]any `json:"fin"`
+	Best  map[string][][]any `json:"best"`
+}
+
+func pkey(p [][]any) string { b, _ := json.Marshal(p); return string(b) }
+
+var valIdx = map[string]int{"a": 0, "b": 1, "c": 2, "d": 3}
+
+// replayBehaviour executes one behaviour of BFT.tla (MCBFTSim) on the real simulator: who proposes on what, who
+// receives what when, who restarts. The recorded trace is judged by Trace_BFT.tla; in addition the COM bits and the
+// final finalized checkpoints predicted by the design model are compared (mismatch = the two specs disagree).
+func replayBehaviour(file string, seed int64) ([]trace.Ev, runStat, []string) {
+	raw, err := os.ReadFile(file)
+	must(err)
+	var bh behaviour
+	must(json.Unmarshal(raw, &bh))
+	r := newRec(config{4, 3, false, 3}, "tlc-schedule", seed)
+	r.st.Cfg += ":" + filepath.Base(file)
+	real := map[string]*block.Block{pkey([][]any{}): r.net.B0} // model path -> real block
+	var notes []string
+	// seed chain
+	cur := [][]any{}
+	for _, el := range bh.Seed {
+		parent := real[pkey(cur)]
+		cur = append(append([][]any{}, cur...), el)
+		blk := r.mint(parent.Header().ID(), valIdx[el[0].(string)], el[1].(bool))
+		if blk == nil {
+			fmt.Println("HARNESS-ERROR cannot mint seed chain")
+			os.Exit(3)
+		}
+		real[pkey(cur)] = blk
+		for i := range r.net.Nodes {
+			r.deliver(i, blk)
+		}
+	}
+	diverged := false
+	for k, st := range bh.Steps {
+		v := valIdx[st.V]
+		switch st.A {
+		case "ph":
+			parentPath := st.B[:len(st.B)-1]
+			want, ok := real[pkey(parentPath)]
+			if !ok || r.net.Nodes[v].Repo.BestBlockSummary().Header.ID() != want.Header().ID() {
+				// the model ranks equal-quality branches by height, the code by total score: schedules part ways here
+				notes = append(notes, fmt.Sprintf("step %d: real best of %s differs from the model's (score vs height); behaviour cut", k, st.V))
+				diverged = true
+			} else if blk := r.propose(v); blk != nil {
+				real[pkey(st.B)] = blk
+				if blk.Header().COM() != st.B[len(st.B)-1][1].(bool) {
+					notes = append(notes, fmt.Sprintf("SPEC-DISAGREE step %d: COM bit of %s's block is %v, BFT.tla says %v", k, st.V, blk.Header().COM(), st.B[len(st.B)-1][1]))
+				}
+			}
+		case "pb":
+			if parent, ok := real[pkey(st.P)]; ok {
+				np := append(append([][]any{}, st.P...), []any{st.V, st.Com})
+				if blk := r.mint(parent.Header().ID(), v, st.Com); blk != nil {
+					real[pkey(np)] = blk
+					r.st.ByzBlocks++
+				}
+			}
+		case "d":
+			if blk, ok := real[pkey(st.H)]; ok {
+				r.deliverChain(v, blk)
+			}
+		case "r":
+			r.restart(v)
+		}
+		if diverged {
+			break
+		}
+	}
+	if !diverged {
+		for name, fp := range bh.Fin {
+			if want, ok := real[pkey(fp)]; ok {
+				if got := r.net.Nodes[valIdx[name]].BFT.Finalized(); got != want.Header().ID() {
+					notes = append(notes, fmt.Sprintf("SPEC-DISAGREE final finalized of %s: real %d, BFT.tla %d", name, block.Number(got), len(fp)))
+				}
+			}
+		}
+	}
+	evs := r.finish()
+	return evs, r.st, notes
+}
+
 func main() {
+	replayDir := flag.String("replay", "", "directory with beh_*.json behaviours exported from MCBFTSim")
 	out := flag.String("out", ".", "output directory")
 	runs := flag.Int("runs", 10, "number of runs")
 	seed := flag.Int64("seed", 1, "seed")
@@ -622,6 +720,28 @@ func main() {
 	}
 	var all []trace.Ev
 	var stats []runStat
+	if *replayDir != "" {
+		files, _ := filepath.Glob(filepath.Join(*replayDir, "beh_*.json"))
+		sort.Strings(files)
+		var allNotes []string
+		for i, f := range files {
+			evs, st, notes := replayBehaviour(f, *seed*1000003+int64(i))
+			all = append(all, evs...)
+			stats = append(stats, st)
+			for _, n := range notes {
+				allNotes = append(allNotes, filepath.Base(f)+": "+n)
+			}
+		}
+		must(os.MkdirAll(*out, 0o755))
+		must(trace.WriteNDJSON(filepath.Join(*out, "trace.ndjson"), all))
+		f, err := os.Create(filepath.Join(*out, "runs.json"))
+		must(err)
+		must(json.NewEncoder(f).Encode(stats))
+		f.Close()
+		nb, _ := json.Marshal(map[string]any{"runs": len(stats), "events": len(all), "notes": allNotes})
+		fmt.Println(string(nb))
+		return
+	}
 	for i := 0; i < *runs; i++ {
 		s := list[i%len(list)]
 		evs, st := runOne(s, *seed*1000003+int64(i), *blocks)
